@@ -146,6 +146,22 @@ def apply(env, objs, step):
             if len(src.data) > 1:
                 src.data.remove(el)
         f.data.append(el)
+    elif op == "loose_element":
+        # an element constructed with the optional previous= / next= arguments naming a member of
+        # some file's container, and never added to any container: constructing it must not
+        # change that file (in the isolated replay of this object alone there is no neighbour)
+        from cfinterface.components.defaultblock import DefaultBlock
+        from cfinterface.components.defaultregister import DefaultRegister
+        from cfinterface.components.defaultsection import DefaultSection
+
+        near = objs.get(step["near"])
+        kw = {}
+        if near is not None and near[0] == "file":
+            member = near[1].data.last if step["side"] == "previous" else near[1].data.first
+            kw = {step["side"]: member}
+        cls = {"RF": DefaultRegister, "BF": DefaultBlock, "SF": DefaultSection}[step["fcls"]]
+        objs[oid] = ("loose", cls(data="loose\n", **kw))
+        return {"loose": "loose\n"}
     elif op == "file_remove_last":
         kind, f = objs[oid]
         if len(f.data) > 1:
@@ -157,6 +173,8 @@ def apply(env, objs, step):
         except Exception:
             pass
     kind, o = objs[oid]
+    if kind == "loose":
+        return {"loose": o.data}
     return obs_reg(o) if kind == "reg" else obs_file(o)
 
 
@@ -186,7 +204,7 @@ def run_program(steps, only=None):
         kind, o = val
         if only is None or oid == only:
             try:
-                out.setdefault(oid, []).append(obs_reg(o) if kind == "reg" else obs_file(o))
+                out.setdefault(oid, []).append({"loose": o.data} if kind == "loose" else (obs_reg(o) if kind == "reg" else obs_file(o)))
             except Exception as e:
                 out.setdefault(oid, []).append({"exc": type(e).__name__})
     return out
@@ -199,6 +217,7 @@ def default_file_checks():
         F = env[name]
         a, b = F(), F()
         checks[f"{name}_default_containers_not_shared"] = a.data is not b.data
+        checks[f"{name}_default_elements_not_shared"] = a.data.first is not b.data.first
         checks[f"{name}_default_starts_empty"] = len(a.data) == 1
         try:
             checks[f"{name}_default_equals_read_empty"] = bool(a == F.read("")) and bool(F.read("") == a)
@@ -212,6 +231,20 @@ def default_file_checks():
             checks[f"{name}_default_writes_empty_output"] = False
         r1, r2 = F.read(""), F.read("")
         checks[f"{name}_two_reads_independent_containers"] = r1.data is not r2.data
+        # growing one default-constructed file leaves another one (older or newer) as it was
+        try:
+            c = F()
+            x = type(a.data.first)(data="x\n")
+            y = type(a.data.first)(data="y\n")
+            a.data.preppend(y)
+            a.data.append(x)
+            e = F()
+            checks[f"{name}_default_unaffected_by_growth_of_another"] = all(
+                len(k.data) == 1 and [m for m in k.data] == [k.data.first] and k.data.first.next is None and k.data.first.previous is None and k.data.last is k.data.first
+                for k in (b, c, e)
+            )
+        except Exception:
+            checks[f"{name}_default_unaffected_by_growth_of_another"] = False
     # the same clauses in binary storage (register and block families)
     from io import BytesIO
 
@@ -401,6 +434,10 @@ def random_case(rng):
             elif r < 0.6:
                 steps.append({"obj": oid, "op": "file_remove_last"})
                 tagged[:] = [t for t in tagged if t["obj"] != oid]  # the last element may have been a tagged one
+            elif r < 0.7:
+                # somebody constructs an element NEXT to a member of this file and keeps it for himself
+                loose_id = 1000 + len(steps)
+                steps.append({"obj": loose_id, "op": "loose_element", "near": oid, "fcls": fcls, "side": rng.choice(["previous", "next"])})
             else:
                 steps.append({"obj": oid, "op": "file_write"})
     return {"steps": steps, "defaults": rng.random() < 0.2}
